@@ -273,6 +273,14 @@ theorem c06_in_force_token_bucket (A : Arith) (ops : List ULOp) (hl : opsLegal o
          simp [inForceOK, guessType, see, ratOps] at hok
          exact ⟨u, bk, h1, by rw [hload, hfc], hok.1, hok.2⟩)
 
+/-- what the dispatcher gets for a policy that names a configured token-bucket schema is that schema's bucket with its
+    local numbers — never the built-in exempt limiter, whatever the name is and whatever other names exist beside it -/
+theorem c06_lookup_configured (A : Arith) (ops : List ULOp) (hl : opsLegal ops = true)
+    (n : Nat) (s : Schema) (hm : (n, s) ∈ lastSpec [] ops) (q b : Nat) (htb : s.tb = some (q, b)) :
+    ∃ u bk, UL.runOps A UL.init ops = some u ∧ u.getOrDefault (some n) = .tb bk ∧ bk.qps = q ∧ bk.burst = b := by
+  obtain ⟨u, bk, h1, h2, h3, h4⟩ := c06_in_force_token_bucket A ops hl n s hm q b htb
+  exact ⟨u, bk, h1, by simp [UL.getOrDefault, h2], h3, h4⟩
+
 /-! ## every request is charged, whatever the server classified it as -/
 
 /-- **The dispatcher charges every request shape**: what is forwarded and what is answered 429 is exactly what the
